@@ -20,19 +20,19 @@ use std::time::Duration;
 
 pub struct C33;
 
-const KINDS: [&str; 28] = [
+pub const KINDS: [&str; 28] = [
     "activate",
     "read", "write", "browse", "browse_next", "translate", "register_nodes", "unregister_nodes", "add_nodes", "add_references", "delete_nodes", "delete_references", "call", "create_sub", "modify_sub", "set_publishing",
     "delete_subs", "transfer_subs", "create_items", "modify_items", "set_monitoring_mode", "set_triggering", "delete_items", "publish", "republish", "history_read", "history_update", "query_first",
 ];
 
-struct G<'a> {
-    r: &'a mut Rng,
-    ns: u16,
-    subs: Vec<u32>,
-    items: Vec<u32>,
-    cps: Vec<ByteString>,
-    client_sig: SignatureData,
+pub struct G<'a> {
+    pub r: &'a mut Rng,
+    pub ns: u16,
+    pub subs: Vec<u32>,
+    pub items: Vec<u32>,
+    pub cps: Vec<ByteString>,
+    pub client_sig: SignatureData,
 }
 
 impl<'a> G<'a> {
@@ -285,7 +285,7 @@ impl<'a> G<'a> {
         }
     }
 
-    fn request(&mut self, kind: &str, hdr: RequestHeader) -> SupportedMessage {
+    pub fn request(&mut self, kind: &str, hdr: RequestHeader) -> SupportedMessage {
         let n = if self.r.chance(0.1) { 0 } else { self.r.urange(1, 3) };
         match kind {
             "activate" => {
